@@ -28,14 +28,18 @@ HostTable == { [h |-> "198.51.100.9", ok |-> TRUE, addr |-> T4, port |-> 0], [h 
                [h |-> "300.1.1.1", ok |-> FALSE, addr |-> "", port |-> 0], [h |-> "1.2.3.", ok |-> FALSE, addr |-> "", port |-> 0],
                [h |-> "[2001:db8:99::9]:8080", ok |-> TRUE, addr |-> T6, port |-> 8080], [h |-> "2001:db8:99::9", ok |-> TRUE, addr |-> T6, port |-> 0],
                [h |-> "[2001:db8:99::9]", ok |-> TRUE, addr |-> T6, port |-> 0] }
-HostOf(h) == CHOOSE r \in HostTable : r.h = h
+\* well-formed literals no datagram can be sent to from an ordinary socket (broadcast without SO_BROADCAST, link-local without a zone):
+\* the request may fail, but with an error; used by the scenario generator only
+Unroutable == { [h |-> "255.255.255.255", ok |-> TRUE, addr |-> "255.255.255.255", port |-> 0], [h |-> "fe80::1", ok |-> TRUE, addr |-> "fe80::1", port |-> 0] }
+IsV6(a) == a \in {T6, "fe80::1"}
+HostOf(h) == CHOOSE r \in HostTable \cup Unroutable : r.h = h
 KnownProto(p) == p \in {"udp", "tcp", "icmp"}
 KnownMethod(m) == m \in {"", "syn", "sack", "prefer_sack"}     \* syn_socket exists but is not supported on this platform: rejected
 \* the meaning of a parameter set
 Expect(proto, method, mn, mx, port, host) ==
     LET hr == HostOf(host)
         eport == IF hr.port # 0 THEN hr.port ELSE IF port = 0 THEN 33434 ELSE port
-        v6 == hr.ok /\ hr.addr = T6
+        v6 == hr.ok /\ IsV6(hr.addr)
         valid == /\ KnownProto(proto) /\ (proto = "tcp" => KnownMethod(method))
                  /\ mn >= 1 /\ mn <= mx /\ mx <= 255
                  /\ hr.ok
@@ -62,7 +66,7 @@ Code(proto, method, mn, mx, port, host) ==
        ELSE IF ~hr.ok THEN rej                                                         \* parseTarget: literal / resolution
        ELSE IF ~(eport \in 1..65535) THEN rej                                          \* parseTarget: port range
        ELSE IF proto = "tcp" /\ ~(m2 \in {"syn", "sack", "prefer_sack"}) THEN rej       \* performTCPFallback (syn_socket: unix stub errors)
-       ELSE IF proto = "tcp" /\ hr.addr = T6 THEN rej                                  \* IPv4-only TCP drivers
+       ELSE IF proto = "tcp" /\ IsV6(hr.addr) THEN rej                                  \* IPv4-only TCP drivers
        ELSE IF emn < 1 \/ emn > emx THEN rej                                           \* TracerouteParams.validate
        ELSE [reject |-> FALSE, min |-> emn, max |-> emx, addr |-> hr.addr, port |-> IF proto = "icmp" THEN 0 ELSE eport,
              kind |-> CASE proto = "icmp" -> "echo_req" [] proto = "udp" -> "udp" [] m2 \in {"sack", "prefer_sack"} -> "sack" [] OTHER -> "syn"]
